@@ -92,6 +92,24 @@ func buildC14(p *Program, tier string) ([]*Unit, []UnitError) {
 		o.Guard = "true"
 	}
 	add(du("(*application).applyList"), "applyList", lopts)
+	// Apply itself: the root as it stands at the end, on the normal exit and after the recovered abort
+	add(du("Apply"), "Apply", nil)
+	if _, ok := p.pkgs[pkgAstutil]; ok {
+		if src := p.db.Funcs[du("Apply")]; src != nil {
+			key := pkgAstutil + ".Apply"
+			for _, pr := range [][2]string{{du("Apply"), key}, {du("(*application).apply"), pkgAstutil + ".(*application).apply"}} {
+				if sc := p.db.Funcs[pr[0]]; sc != nil {
+					if _, have := p.db.Funcs[pr[1]]; !have {
+						c := *sc
+						c.Key, c.Pkg = pr[1], pkgAstutil
+						p.db.Funcs[pr[1]] = &c
+					}
+				}
+			}
+			_ = src
+			add(key, "astutil.Apply", &UnitOpts{TypeRename: [2]string{"dst.", "ast."}})
+		}
+	}
 	// apply, per node type: children in the order of dst.Walk, names equal to the fields, pre/post protocol
 	us, es := buildApplyCases(p, tier)
 	units, errs = append(units, us...), append(errs, es...)
